@@ -171,3 +171,24 @@ func genProgram(seed uint64, kind string, iters int) string {
 	}
 	return b.String()
 }
+
+// genFunctions builds helpers plus k pure entry functions e0..e{k-1}(p: int) -> int whose result depends
+// on nothing but the argument (no globals, no output): calling one twice with the same argument must
+// give the same value, whatever ran before on the same VM and whatever runs next to it.
+func genFunctions(seed uint64, k int) string {
+	g := newPgen(seed)
+	var b strings.Builder
+	nh := g.r.Intn(3)
+	for h := 0; h < nh; h++ {
+		g.budget = 6
+		body := g.stmts(2, []string{"a", "p"}, false, true, "    ")
+		fmt.Fprintf(&b, "fn h%d(p: int) -> int {\n    let a = p %% 7;\n%s    a %% 100\n}\n", h, body)
+		g.nhelp = h + 1
+	}
+	for e := 0; e < k; e++ {
+		g.budget = 9
+		body := g.stmts(3, []string{"a", "p"}, false, true, "    ")
+		fmt.Fprintf(&b, "fn e%d(p: int) -> int {\n    let a = p %% 11;\n%s    a = (a %% 100000 + 100000) %% 100000;\n    a\n}\n", e, body)
+	}
+	return b.String()
+}
